@@ -32,7 +32,7 @@ Inductive case :=
 | CCron (opts : Z) (spec : list N) (zone_ok : bool) (dur : option Z) (o : obs)
 (* ---- layer B ---- *)
 | CPemKey (b : pemblk) (parsed : option keydyn) (o : obs)
-| CSerializeKey (raw : option rawdyn) (unit_prime rsa_valid : bool) (o : obs)
+| CSerializeKey (raw : option rawdyn) (unit_prime rsa_valid : bool) (ec_d ec_n ec_size : Z) (o : obs)
 | CVerifyEdDSA (kty_okp iface_ok crv_ed raw_ok : bool) (pubLen : Z) (o : obs)
 | CDecodeMetadata (inp : md_input) (dup_keys : bool) (r : md_result) (o : obs)
 | CConfigVal (c : cfg_val) (typed_target : bool) (o : obs)
@@ -43,7 +43,7 @@ Definition obs_of (c : case) : obs :=
   | CKwWrap _ o | CKwUnwrap _ _ _ o | CCbcNew _ _ _ o | CCbcSeal _ _ _ _ _ o
   | CCbcOpen _ _ _ _ _ _ _ o | CSymEnc _ _ _ _ _ o | CSymDec _ _ _ _ _ _ _ _ _ _ o
   | CAlg _ _ o | CPad _ _ o | CUnpad _ _ o | CIso _ o | CJson _ _ o | CCron _ _ _ _ o
-  | CPemKey _ _ o | CSerializeKey _ _ _ o | CVerifyEdDSA _ _ _ _ _ o
+  | CPemKey _ _ o | CSerializeKey _ _ _ _ _ _ o | CVerifyEdDSA _ _ _ _ _ o
   | CDecodeMetadata _ _ _ o | CConfigVal _ _ o | CDurationHook _ o => o
   end.
 
@@ -116,7 +116,7 @@ Definition model_agrees (v : variant) (c : case) : bool :=
   | CJson which data o => obs_eqb (json_model which data) o
   | CCron opts spec zok dur o => obs_eqb (cron_class v opts spec zok dur) o
   | CPemKey b parsed o => mout_agrees (decode_pem_private_key v b parsed) o
-  | CSerializeKey raw up valid o => mout_agrees (serialize_key v raw up valid) o
+  | CSerializeKey raw up valid d n sz o => mout_agrees (serialize_key v raw up valid d n sz) o
   | CVerifyEdDSA k i c r l o => mout_agrees (verify_eddsa v k i c r l) o
   | CDecodeMetadata inp dup r o => mout_agrees (decode_metadata v inp dup r) o
   | CConfigVal cv typed o => mout_agrees (config_decode_val v cv typed) o
@@ -152,6 +152,10 @@ Proof. vm_compute. reflexivity. Qed.
 Example chk_ex10 : check_case (CIso (bs "R5/PT30S") (OOk [0; 0; 0; 30000000000; 5])) = 0.
 Proof. vm_compute. reflexivity. Qed.
 Example chk_ex11 : check_case (CVerifyEdDSA true true true true 31 OErr) = 0. Proof. reflexivity. Qed.
-Example chk_ex12 : check_case (CSerializeKey (Some RRsaPriv) true false OErr) = 0. Proof. reflexivity. Qed.
+Example chk_ex12 : check_case (CSerializeKey (Some RRsaPriv) true false 0 0 0 OErr) = 0. Proof. reflexivity. Qed.
+Example chk_ex15 : check_case (CSerializeKey (Some REcdsaPriv) false true (256 ^ 32 + 5) (256 ^ 32 - 1000) 32 OErr) = 0.
+Proof. vm_compute. reflexivity. Qed.
+Example chk_ex16 : model_agrees Original (CSerializeKey (Some REcdsaPriv) false true (256 ^ 32 + 5) (256 ^ 32 - 1000) 32 OPanic) = true.
+Proof. vm_compute. reflexivity. Qed.
 Example chk_ex13 : check_case (CConfigVal VPtrToNilPtr true OErr) = 0. Proof. reflexivity. Qed.
 Example chk_ex14 : model_agrees Original (CConfigVal VPtrToNilPtr true OPanic) = true. Proof. reflexivity. Qed.
